@@ -492,13 +492,8 @@ func checkC13(c *Check, p *Program) {
 				if cell == nil || cell.Parent() != a.sendFn {
 					return false
 				}
-				// the cell receives the transmission's result
-				for _, st := range cellStores(cell) {
-					if st.Val == ssa.Value(a.sendSite.Call.Value()) {
-						return true
-					}
-				}
-				return false
+				// the cell receives the transmission's result (or an error made from it where it failed)
+				return cellTracksFailure(p, cell, a.sendSite.Call.Value())
 			}
 			if unlock == nil {
 				c.Fail("C13.P2", gn+" unlocks", p.Pos(gf.Pos()), "no unlock in the hand-off goroutine")
@@ -990,6 +985,11 @@ func checkC14(c *Check, p *Program) {
 		}
 		for _, x := range loadValues(v) {
 			if x == ssa.Value(sendRes) {
+				return true
+			}
+		}
+		if u, ok := v.(*ssa.UnOp); ok && u.Op == token.MUL {
+			if cell := cellOf(u.X); cell != nil && cellTracksFailure(p, cell, sendRes) {
 				return true
 			}
 		}
@@ -1786,4 +1786,43 @@ func affineLoopVisits(lp *loopInfo, mk *ssa.MakeSlice, isStore func(ssa.Instruct
 		}
 	}
 	return true, ""
+}
+
+// cellTracksFailure: the error variable is nil exactly when the transmission
+// succeeded: it is stored the transmission's result itself, or - where the
+// result is known to be non-nil - an error made for it; nothing else but the
+// nil initialisation is ever stored.
+func cellTracksFailure(p *Program, cell *ssa.Alloc, sendRes *ssa.Call) bool {
+	if sendRes == nil {
+		return false
+	}
+	tracked := false
+	for _, st := range cellStores(cell) {
+		after := instrReaches(sendRes, st)
+		before := instrReaches(st, sendRes)
+		if u, ok := st.Val.(*ssa.UnOp); ok && u.Op == token.MUL && cellOf(u.X) == cell {
+			continue // `return err` with a named result stores the variable into itself
+		}
+		switch {
+		case !after && !before:
+			// on a path that never transmits (an early return)
+		case !after:
+			if !isNilConst(st.Val) {
+				return false
+			}
+		case st.Val == ssa.Value(sendRes):
+			tracked = true
+		case p.isNonNilError(st.Val):
+			failed := anyFact(factsAt(st.Block()), func(f Cmp) bool {
+				return f.Op == token.NEQ && ((f.X == ssa.Value(sendRes) && isNilConst(f.Y)) || (f.Y == ssa.Value(sendRes) && isNilConst(f.X)))
+			})
+			if !failed {
+				return false
+			}
+			tracked = true
+		default:
+			return false
+		}
+	}
+	return tracked
 }
